@@ -1,7 +1,7 @@
 //! C02 part (i): the single-endpoint registration rules. Every (template incl. ill-formed x
 //! Path shape x Query shape x tag setting) registered alone on an empty description.
 
-use crate::e1::{register_one, AppCtx, RegOutcome};
+use crate::e1::{auto_endpoint, register_one, AppCtx, RegOutcome, Spec};
 use crate::refs::*;
 use crate::report::*;
 use dropshot::{ApiDescription, ApiEndpoint, ApiEndpointVersions, EndpointTagPolicy, HttpError, HttpResponseOk, Path, Query, RequestContext, TagConfig, TagDetails};
@@ -238,6 +238,57 @@ pub fn check_single(ctx: &Ctx, template: &str, pi: usize, qi: usize, t: &TagSett
     want.is_some()
 }
 
+/// Well-formed endpoints that share a trie path with `template` without conflicting with it:
+/// every proper prefix of its segments, and (for a well-formed template without a wildcard) a
+/// literal continuation. They are registered under PUT (the template itself under GET).
+pub fn preambles(template: &str) -> Vec<Vec<String>> {
+    let segs: Vec<&str> = template.split('/').filter(|s| !s.is_empty()).collect();
+    let mut singles: Vec<String> = vec![];
+    for k in 0..segs.len() {
+        let t = format!("/{}", segs[..k].join("/"));
+        if parse_template(&t).is_some() {
+            singles.push(t);
+        }
+    }
+    if let Some(ps) = parse_template(template) {
+        if !ps.iter().any(|s| matches!(s, Seg::Wild(_))) {
+            singles.push(format!("{}/zz", template.trim_end_matches('/')));
+        }
+    }
+    let mut out: Vec<Vec<String>> = singles.iter().map(|t| vec![t.clone()]).collect();
+    if singles.len() > 1 {
+        out.push(singles.clone());
+        out.push(singles.iter().rev().cloned().collect());
+    }
+    out
+}
+
+/// The single-endpoint rules again, on a description that already holds `pre` (C02: the rules
+/// hold "for any endpoint", not only for the first one registered).
+pub fn check_single_after(ctx: &Ctx, pre: &[String], template: &str, pi: usize, qi: usize, evals: &AtomicU64) {
+    let t = TagSetting { policy: 0, allow_other: true, configured: vec![], endpoint_tags: vec![], visible: true };
+    let mut api = ApiDescription::<AppCtx>::new();
+    for (i, p) in pre.iter().enumerate() {
+        let mut sp = Spec::new("PUT", p, Range::All);
+        sp.op = format!("pre{i}");
+        if !register_one(&mut api, || auto_endpoint(&sp)).accepted() {
+            return; // the preamble itself is not what is being judged here
+        }
+    }
+    evals.fetch_add(1, Ordering::Relaxed);
+    let out = register_one(&mut api, || endpoint(pi, qi, template));
+    let want = ref_single(template, pi, qi, &t);
+    let rejected = !out.accepted();
+    if rejected != want.is_some() {
+        ctx.report(Violation {
+            sig: json!({"kind": if rejected {"single_rejected_without_conflict"} else {"single_accepted_with_conflict"}, "why": want, "after_preamble": true}),
+            case: json!({"kind":"registration","single_after": {"preamble_put": pre, "template": template, "path_shape": PSHAPES[pi].0, "query_shape": QSHAPES[qi].0, "pi": pi, "qi": qi}}),
+            expected: json!({"rejected": want.is_some(), "why": want}),
+            observed: out.to_json(),
+        });
+    }
+}
+
 pub fn run(ctx: &Ctx, samples: &Samples) -> Value {
     let evals = AtomicU64::new(0);
     let rejected = AtomicU64::new(0);
@@ -279,5 +330,21 @@ pub fn run(ctx: &Ctx, samples: &Samples) -> Value {
             rejected.fetch_add(1, Ordering::Relaxed);
         }
     });
-    json!({"single_registrations": evals.load(Ordering::Relaxed), "reference_rejects": rejected.load(Ordering::Relaxed), "templates": TEMPLATES, "path_shapes": PSHAPES.len(), "query_shapes": QSHAPES.len(), "tag_settings": tags.len()})
+    // (c) every template x path shape x query shape again, after each preamble
+    let after = AtomicU64::new(0);
+    let mut work2: Vec<(usize, usize, usize, Vec<String>)> = vec![];
+    for ti in 0..TEMPLATES.len() {
+        for pre in preambles(TEMPLATES[ti]) {
+            for pi in 0..PSHAPES.len() {
+                for qi in 0..QSHAPES.len() {
+                    work2.push((ti, pi, qi, pre.clone()));
+                }
+            }
+        }
+    }
+    par_for(work2.len(), ncpu(), ctx.seed, |i| {
+        let (ti, pi, qi, pre) = &work2[i];
+        check_single_after(ctx, pre, TEMPLATES[*ti], *pi, *qi, &after);
+    });
+    json!({"single_registrations_after_a_preamble": after.load(Ordering::Relaxed), "single_registrations": evals.load(Ordering::Relaxed), "reference_rejects": rejected.load(Ordering::Relaxed), "templates": TEMPLATES, "path_shapes": PSHAPES.len(), "query_shapes": QSHAPES.len(), "tag_settings": tags.len()})
 }
